@@ -4,4 +4,5 @@ import Orx.GenThms.Arr
 import Orx.GenThms.Range
 import Orx.GenThms.New
 import Orx.GenThms.Adapt
+import Orx.GenThms.Iter
 /-! All theorems about the translated Rust functions (`Generated/Arith*.lean`), one module per group of source files. -/
